@@ -786,4 +786,12 @@ Definition chk_cell (x : cell_case) : bool :=
   | Unmodelled, Unmodelled => true
   | _, _ => false
   end.
+(* inputs the driver flags as possibly outside the modelled fragment: Unmodelled is forgiven, any
+   definite answer of the model must still agree *)
+Definition chk_cell_l (x : cell_case) : bool :=
+  match verify_redirect_uris (fst x) with Unmodelled => true | _ => chk_cell x end.
+Definition chk_urlsplit_l (c : pystr * res (split5 * option pystr)) : bool :=
+  match urlsplit (fst c) with Unmodelled => true | _ => chk_urlsplit c end.
+Definition chk_split_uri_l (c : pystr * res (pystr * option qdict)) : bool :=
+  match split_uri (fst c) with Unmodelled => true | _ => chk_split_uri c end.
 Definition diag_cell (x : cell_case) : res (list (pystr * qdict)) := verify_redirect_uris (fst x).
